@@ -6,7 +6,7 @@ import itertools
 import numpy as np
 import xarray as xr
 
-from .. import builders, ref
+from .. import builders, ref, sequences
 from ..runner import LibraryRaised, Recorder, lib
 
 PROPERTY = 'C03'
@@ -19,6 +19,7 @@ RULE = (
     "Non-trivial: permutations where the grid dimensions are not the trailing dimensions in "
     "convention order, non-default kinds, name collisions."
     ' Also: slices of dataset variables (extra dimensions named like dataset dimensions but of another length) and datasets with reversed dimension declaration.'
+    " Datasets also arrive with a history: warmed convention, copy, deep copy, pickle, netCDF round trip, fully chunked (dask), and hand-built conventions for coordinates autodetection would not pick (decoy pair), after warm / pickle. Also (operation sequences, mc/sequences.py): for 8 base datasets and every sequence `first [middle] query` over 36 operations (queries, in-place edits a user makes, transforms whose result is used next; quick length 2, thorough length 3) ending in one of this property's own queries, the answer on the one used object equals the answer on a never-used rebuild. Second phase: the first case of every distinct outcome and kind (thorough: every case, for expensive checks every kind) again with debug logging enabled, under numpy.errstate(all='ignore'), and in python -O child interpreters."
 )
 LEVEL_TEXT = ('every permutation of 0..3 extra dimensions with the grid dimensions of every grid kind, every wind mode (default/axis/name) and linear-dimension naming case, both round-trip directions, against numpy.moveaxis+reshape')
 LEVEL_NOTE = ('numpy/xarray transposition semantics; names colliding with a remaining dimension may be refused')
@@ -46,6 +47,7 @@ def datasets(tier):
         {'family': 'shoc_standard', 'nj': 3, 'ni': 2, 'declare_reversed': True},
         {'family': 'ugrid', 'mesh': 'M11'},
     ]
+    specs += builders.history_specs(tier)
     if tier == 'thorough':
         specs += [
             {'family': 'cf1d', 'ny': 1, 'nx': 4, 'bounds': 'var'},
@@ -58,7 +60,7 @@ def datasets(tier):
     return specs
 
 
-def cases(tier):
+def _cases_first_call(tier):
     out = []
     for spec in datasets(tier):
         _, truth = builders.build(spec)
@@ -73,7 +75,7 @@ def labelled(dims, sizes):
     return xr.DataArray(np.arange(int(np.prod(shape)), dtype='float64').reshape(shape) + 1, dims=dims)
 
 
-def run_case(case):
+def _run_case_first_call(case):
     rec = Recorder()
     ds, truth = builders.build(case['spec'])
     convention = ds.ems
@@ -239,3 +241,16 @@ def run_case(case):
 
     rec.outcome([truth.family, kind, case['extras']])
     return rec.result()
+
+
+def cases(tier):
+    # first calls on freshly built datasets, then operation sequences on one object (mc/sequences.py)
+    return _cases_first_call(tier) + sequences.cases_for(PROPERTY, tier)
+
+
+def run_case(case):
+    if case.get('part') == 'sequence':
+        rec = Recorder()
+        sequences.run_case(PROPERTY, case, rec)
+        return rec.result()
+    return _run_case_first_call(case)
